@@ -346,6 +346,14 @@ extern "C" void c02_run()
   }
   sim_phase(2);
   c02_drain();
+  for (int k = 0; k < p->sporadic; k++) {
+    // the caller idles (workers run out of work and go to sleep), then hands over one more task
+    for (int y = 0; y < p->sporadic_idle[k]; y++)
+      sim_yield();
+    int id = C02_MAXITEMS + 2000 + k;
+    items.push_back(new SchedItem(id, nullptr));
+    c02_wait_one(id);
+  }
   sim_phase(3);
   for (auto *it : items)
     delete it;
